@@ -565,7 +565,20 @@ def shape_tags(tree):
                     tags.add("for_target_also_assigned_elsewhere")
                 if is_range:
                     a = n.iter.args
-                    if len(a) == 3 and not (isinstance(a[2], ast.Constant) or (isinstance(a[2], ast.UnaryOp) and isinstance(a[2].operand, ast.Constant))):
+                    def is_const(x):
+                        return isinstance(x, ast.Constant) or (isinstance(x, ast.UnaryOp) and isinstance(x.operand, ast.Constant))
+
+                    def named_const(x):
+                        # a name assigned exactly once, with a constant (the transpiler propagates it)
+                        if not isinstance(x, ast.Name):
+                            return False
+                        defs = [m for m in ast.walk(tree) if isinstance(m, ast.Assign) and len(m.targets) == 1 and isinstance(m.targets[0], ast.Name)
+                                and m.targets[0].id == x.id]
+                        others = [m for m in ast.walk(tree) if isinstance(m, (ast.AugAssign, ast.For)) and isinstance(getattr(m, "target", None), ast.Name)
+                                  and m.target.id == x.id]
+                        return len(defs) == 1 and not others and is_const(defs[0].value)
+
+                    if len(a) == 3 and not (is_const(a[2]) or named_const(a[2])):
                         tags.add("range_step_not_constant")
                     bound_names = {x.id for arg in a for x in ast.walk(arg) if isinstance(x, ast.Name)}
                     if any(isinstance(x, ast.Name) and isinstance(x.ctx, ast.Store) and x.id in bound_names for b in n.body for x in ast.walk(b)) or \
